@@ -107,3 +107,19 @@ def kholaw_long_round_seeds(rng, thresholds, tries, lengths=(16, 32, 64)):
             out.append((max(hit), seed))
             left.remove(max(hit))
     return out
+
+
+def routes(label, rs):
+    """every documented route to one result: all must give the same answer, or all must refuse with the same error class; otherwise the
+    reply is an ARGUMENT-FORM-DEPENDENT string (never equal to a model reply), naming each route's outcome"""
+    outs = []
+    for name, f in rs:
+        try:
+            outs.append((name, f()))
+        except Exception as ex:  # noqa
+            outs.append((name, "!" + exc_kind(ex)))
+    if len({o for _, o in outs}) != 1:
+        return "ARGUMENT-FORM-DEPENDENT " + label + ": " + " | ".join("%s: %s" % (n, str(o)[:100]) for n, o in outs)
+    if isinstance(outs[0][1], str) and outs[0][1].startswith("!"):
+        rs[0][1]()          # re-raise for the caller's error classification
+    return outs[0][1]
